@@ -13,17 +13,14 @@ from . import rfc5234
 from .misc import load_grammar_rules
 
 
-@load_grammar_rules(
-    [
-        (rule.name, rule)
-        for rule in rfc5234.Rule.rules()
-        if rule.name not in {core_rule.name for core_rule in _Rule.rules()}
-    ]
-)
+@load_grammar_rules()
 class Rule(_Rule):
     """Rule objects generated from ABNF in RFC 7405."""
 
+    # RFC 7405 updates RFC 5234: every RFC 5234 rule is re-created in this namespace
+    # (so that e.g. element refers to the char-val below), then char-val is redefined.
     grammar: ClassVar[Union[list[str], str]] = [
+        *rfc5234.Rule.grammar,
         "char-val = case-insensitive-string /\
                            case-sensitive-string",
         'case-insensitive-string =\
